@@ -260,6 +260,17 @@ def coq_obligations(prop, extra_targets=()):
                 names.add(m.group(1))
     res["assumptions"] = {"closed": closed, "axioms": sorted(names)}
     bad = [a for a in names if a not in ALLOWED_AXIOMS]
+    if CURRENT_TIER == "thorough":
+        # the independent checker re-checks the compiled property file and everything it depends on
+        c = sh("cd %s && ulimit -s unlimited; timeout 2400 coqchk -silent -o -Q . Chess Chess.Properties.%s 2>&1" % (coqdir, prop))
+        out = c.stdout
+        m = re.search(r"\* Axioms:\s*(.*?)\n\s*\n", out, flags=re.S)
+        ax = (m.group(1).strip() if m else "?")
+        res["coqchk"] = {"exit": c.returncode, "axioms": ax[:2000],
+                         "type_in_type": "type-in-type: <none>" in out, "unsafe_fixpoints": "unsafe (co)fixpoints: <none>" in out,
+                         "positivity": "positivity is assumed: <none>" in out}
+        if c.returncode != 0 or ax != "<none>":
+            bad.append("coqchk: exit %d, axioms %s" % (c.returncode, ax[:200]))
     res["ok"] = (not bad) and not res["forbidden"] and closed >= 1
     if bad:
         res["failed"] = "axioms not allowed: %s" % ", ".join(bad)
@@ -307,6 +318,9 @@ class Check:
         self.cov["checker_cmd"] = "cd coq && make Properties/%s.vo (coqc 8.16.1; Print Assumptions under every pinned theorem)" % self.prop
         self.cov["theorems"] = res.get("pins") or res.get("theorems")
         self.cov["print_assumptions"] = res.get("assumptions")
+        if res.get("coqchk"):
+            self.cov["coqchk"] = res["coqchk"]
+            self.cov["trusted_base"].append("coqchk -o (independent checker) on this property's compiled file: %s" % json.dumps(res["coqchk"]))
         self.cov["trusted_base"].append("Print Assumptions: %s" % json.dumps(res.get("assumptions")))
 
     def finish(self):
